@@ -173,7 +173,12 @@ def correspond(ctx):
                 nxt = first
             pts.append((cur, nxt))
             cur = nxt
-        segs = [P.Line(complex(a, 0), complex(b, 0)) for a, b in pts]
+        # the model sees labels; the real code sees coordinates. In `near` mode distinct labels are distinct points that are
+        # close together compared with their size (1e6 + k/1024), so only exact equality may weld them
+        near = r.random() < 0.4
+        co = (lambda k: complex(1048576.0 + k / 1024.0, 0)) if near else (lambda k: complex(k, 0))
+        segs = [P.Line(co(a), co(b)) for a, b in pts]
+        c.count('near-equal coordinates' if near else 'small integers')
         path = P.Path(*segs)
         cnt = [0]
 
@@ -302,34 +307,52 @@ def sample(ctx, budget=1.0, hint=None, broken=None):
     for it in range(int(ctx.n(120, 1500) * budget)):
         n = r.randint(1, 5)
         closed = r.random() < 0.6
-        gaps = r.random() < 0.4
-        cur = complex(r.uniform(-3, 3), r.uniform(-3, 3))
+        gaps = r.random() < 0.5
+        tiny = gaps and r.random() < 0.5       # gaps that are real but small compared with the coordinates
+        big = r.choice([1.0, 1.0, 1e3, 1e6]) if tiny else 1.0
+        cur = complex(r.uniform(-3, 3), r.uniform(-3, 3)) * big
         first = cur
         segs = []
         for i in range(n):
             segs.append(_rand_seg(spt, r, cur, 1.0, r.choice(['line', 'quad', 'cubic'])))
             cur = segs[-1].end
-            if gaps and r.random() < 0.4:
-                cur += complex(1.5, 0.25)
+            if gaps and r.random() < 0.5:
+                cur += (complex(1.5, 0.25) if not tiny else complex(1, -1) * (abs(cur) + 1e-3) * 10.0 ** -r.randint(6, 11))
         if closed and cur != first:
             segs.append(P.Line(cur, first))
         path = P.Path(*segs)
         desc = repr(path).replace('\n', ' ')
         n = len(segs)
         n_eval += 1
-        nontriv.add(('path', n, closed, gaps))
+        nontriv.add(('path', n, closed, gaps, tiny))
         before = [segs[i].end == segs[(i + 1) % n].start for i in range(n)]
-        ops = [('translated', lambda p: p.translated(complex(r.uniform(-5, 5), 0.1))),
-               ('rotated', lambda p: p.rotated(r.uniform(-180, 180), origin=complex(0.3, -1.7))),
-               ('scaled', lambda p: p.scaled(r.choice([0.3, 1.7, -2.1]), origin=complex(1.7, 2.9))),
+        z_ = complex(r.uniform(-5, 5), 0.1)
+        deg_ = r.uniform(-180, 180)
+        sf_ = r.choice([0.3, 1.7, -2.1])
+        M_ = rand_matrix()[1]
+        # every operation below applies to a Path and to a single segment alike
+        ops = [('translated', lambda p: p.translated(z_)),
+               ('rotated', lambda p: p.rotated(deg_, origin=complex(0.3, -1.7))),
+               ('scaled', lambda p: p.scaled(sf_, origin=complex(1.7, 2.9))),
                ('scaled2', lambda p: p.scaled(0.3, 1.9)),
-               ('transform', lambda p: P.transform(p, rand_matrix()[1]))]
+               ('transform', lambda p: P.transform(p, M_))]
         for nm, op in ops:
             q = op(path)
             if len(q) != n or any(type(a) is not type(b) for a, b in zip(q, path)):
                 fail('Path.%s/segmentwise' % nm, 'operation does not act segment-wise', {'path': desc}, repr(q), 'same kinds, same count')
                 continue
             after = [q[i].end == q[(i + 1) % n].start for i in range(n)]
+            # segment-wise: where two consecutive segments did NOT touch, both ends are exactly what the operation gives for
+            # the segment alone (only joints that coincided are re-welded)
+            for i in range(n):
+                j = (i + 1) % n
+                if not before[i] and n > 1:
+                    a, b = op(path[i]), op(path[j])
+                    if q[i].end != a.end or q[j].start != b.start:
+                        fail('Path.%s/non-joint moved' % nm, 'two segments that did not touch were changed beyond the segment-wise operation (glued together)',
+                             {'path': desc, 'op': nm, 'between': [i, j], 'gap_before': repr(segs[j].start - segs[i].end)},
+                             repr((q[i].end, q[j].start)), repr((a.end, b.start)))
+                        break
             for i in range(n):
                 if before[i] and not after[i]:
                     sig = 'Path.%s/joint-lost/%s' % (nm, 'closing' if i == n - 1 else 'interior')
